@@ -269,6 +269,19 @@ impl Gen {
           segs.push(((li + 1) as i64, c as i64, si, ol, oc, ni));
         }
       }
+      // the extremes of the 32-bit fields (still sorted: the huge column is
+      // the last one of its line)
+      if wild && self.rng.gen_bool(0.12) {
+        let big = |g: &mut Self| -> i64 {
+          g.pick(&[u32::MAX as i64, u32::MAX as i64 - 1, 1i64 << 31, (1i64 << 31) - 1, 65_536])
+        };
+        let gc = if self.rng.gen_bool(0.5) { big(self) } else { maxc as i64 + 1 };
+        let si = if self.rng.gen_bool(0.15) { big(self) } else { self.rng.gen_range(0..ns.max(1)) as i64 };
+        let ol = if self.rng.gen_bool(0.5) { big(self) } else { 1 };
+        let oc = if self.rng.gen_bool(0.3) { big(self) } else { 0 };
+        let ni = if self.rng.gen_bool(0.1) { big(self) } else { -1 };
+        segs.push(((li + 1) as i64, gc, si, ol, oc, ni));
+      }
     }
     segs
   }
@@ -978,6 +991,81 @@ fn codec_steps(g: &mut Gen) -> Vec<Value> {
   steps
 }
 
+/// Sorted maps with one field of one segment at an extreme of u32, as a
+/// SourceMapSource on its own, as the outer or the inner map of a combined
+/// one, and beneath every composite.
+fn extreme_programs() -> Vec<Value> {
+  let values: [i64; 5] = [u32::MAX as i64, u32::MAX as i64 - 1, 1 << 31, (1 << 31) - 1, 70_000];
+  let text = "ab\ncd\n";
+  let mk = |segs: &[Seg]| -> Value {
+    json!({"m": bytes_json(&encode_segs(segs)), "sources": [name_json("a.js"), name_json("b.js")],
+           "contents": [name_json("ab\ncd\n"), name_json("x")], "names": [name_json("n0")],
+           "root": [], "file": [], "dbg": []})
+  };
+  let sms = |m: Value, inner: Option<Value>| -> Value {
+    json!({"k": "sms", "b": bytes_json(text.as_bytes()), "name": name_json("a.js"), "map": m,
+           "inner": inner.map(|i| vec![i]).unwrap_or_default(), "osrc": [], "remove": false})
+  };
+  let raw = |t: &str| json!({"k": "raw", "sub": "str", "b": bytes_json(t.as_bytes())});
+  let plain: Vec<Seg> = vec![(1, 0, 0, 1, 0, -1), (2, 0, 0, 2, 0, 0)];
+  let mut out = vec![];
+  for field in 0..5 {
+    for v in values {
+      for which in 0..2 {
+        let mut segs = plain.clone();
+        // the generated column must stay sorted: the extreme goes to a
+        // second segment on the same line
+        if field == 0 {
+          let line = segs[which].0;
+          segs.insert(which + 1, (line, v, 0, 1, 0, -1));
+        } else {
+          let s = &mut segs[which];
+          match field {
+            1 => s.2 = v,
+            2 => s.3 = v,
+            3 => s.4 = v,
+            _ => s.5 = v,
+          }
+        }
+        let m = mk(&segs);
+        let leaf = sms(m.clone(), None);
+        let trees = vec![
+          leaf.clone(),
+          json!({"k": "concat", "mode": "boxed", "ch": [raw("x"), leaf.clone(), raw("y")]}),
+          json!({"k": "concat", "mode": "boxed", "ch": [raw("x\n"), leaf.clone(), leaf.clone()]}),
+          json!({"k": "replace", "inner": leaf.clone(),
+                 "repls": [{"s": 1, "e": 2, "c": bytes_json(b"Z\n"), "n": [], "enf": 1, "api": "replace"}]}),
+          json!({"k": "concat", "mode": "boxed", "ch": [
+            {"k": "replace", "inner": leaf.clone(),
+             "repls": [{"s": 0, "e": 0, "c": bytes_json(b"q"), "n": [bytes_json(b"nm")], "enf": 1, "api": "replace"}]},
+            raw("t")]}),
+          json!({"k": "cached", "cid": 1, "inner": leaf.clone()}),
+          json!({"k": "concat", "mode": "boxed", "ch": [{"k": "cached", "cid": 2, "inner": leaf.clone()}, raw("z")]}),
+          // as the outer map of a combined source map, and as the inner one
+          sms(m.clone(), Some(mk(&plain))),
+          sms(mk(&plain), Some(m.clone())),
+          json!({"k": "concat", "mode": "boxed", "ch": [raw("x"), sms(mk(&plain), Some(m.clone()))]}),
+        ];
+        for t in trees {
+          let mut steps = vec![json!({"op": "build", "dst": 0, "tree": t}), json!({"op": "source", "r": 0})];
+          for columns in [true, false] {
+            steps.push(json!({"op": "map", "r": 0, "columns": columns}));
+            for fin in [false, true] {
+              steps.push(json!({"op": "stream", "r": 0, "columns": columns, "final": fin}));
+            }
+            // a second time: replay from caches
+            steps.push(json!({"op": "map", "r": 0, "columns": columns}));
+          }
+          steps.push(json!({"op": "hash", "r": 0, "h": "twox"}));
+          steps.push(json!({"op": "size", "r": 0}));
+          out.push(json!({"steps": steps}));
+        }
+      }
+    }
+  }
+  out
+}
+
 pub fn generate(kind: &str, seed: u64, count: usize, out: &str) {
   std::panic::set_hook(Box::new(|_| {}));
   let cfg = match kind {
@@ -994,6 +1082,20 @@ pub fn generate(kind: &str, seed: u64, count: usize, out: &str) {
   let mut g = Gen::new(seed, cfg);
   let mut f = std::io::BufWriter::new(std::fs::File::create(out).unwrap());
   let mut pid = 0u64;
+  if kind == "extremes" {
+    // not random: every 32-bit field of a segment at its extremes, in the
+    // first or in a later segment, under every kind of enclosing source
+    for prog in extreme_programs() {
+      if pid as usize >= count {
+        break;
+      }
+      let mut prog = prog;
+      prog["pid"] = json!(pid);
+      writeln!(f, "{}", prog).unwrap();
+      pid += 1;
+    }
+    return;
+  }
   while (pid as usize) < count {
     g.reset_program();
     if kind == "ropes" {
